@@ -379,7 +379,16 @@ func (w *World) everyTXIDOracle(rc *Recorder, logical bool) {
 		}
 		all = sel
 	}
+	var l0max uint64
+	if len(l0) > 0 {
+		l0max = l0[len(l0)-1]
+	}
 	for _, t := range all {
+		if t > l0max {
+			// a snapshot uploaded ahead of the level-0 files it covers (the replica sync has not run
+			// yet, e.g. it failed busy): nothing to compare it with until they arrive
+			continue
+		}
 		a := filepath.Join(tmp, "all.db")
 		b := filepath.Join(tmp, "l0.db")
 		errA := restoreTo(w.replicaDir, a, ltx.TXID(t), false)
